@@ -1,5 +1,6 @@
 use crate::fw::Ctx;
 
+pub mod c12;
 pub mod c18;
 
 pub struct Prop {
@@ -8,7 +9,10 @@ pub struct Prop {
     pub replay: fn(&serde_json::Value) -> Result<(), String>,
 }
 
-pub const PROPS: &[Prop] = &[Prop { id: "C18", run: c18::run, replay: c18::replay }];
+pub const PROPS: &[Prop] = &[
+    Prop { id: "C12", run: c12::run, replay: c12::replay },
+    Prop { id: "C18", run: c18::run, replay: c18::replay },
+];
 
 pub fn find(id: &str) -> Option<&'static Prop> {
     PROPS.iter().find(|p| p.id == id)
